@@ -1227,7 +1227,7 @@ func runC19(c *Ctx) {
 	}
 	nGen := 100
 	if c.Thorough {
-		nGen = 1000
+		nGen = 750
 	}
 	if os.Getenv("C19_ONLY_CORPUS") != "" {
 		nGen = 0
@@ -1508,7 +1508,7 @@ func runC19(c *Ctx) {
 	if c.Drv != nil && os.Getenv("C19_ONLY_CORPUS") == "" {
 		nx := 100
 		if c.Thorough {
-			nx = 200
+			nx = 150
 		}
 		c19GraphExtra(c, nx)
 	}
